@@ -74,12 +74,19 @@ TraceNext == Reset \/ Step
 TraceSpec == TraceInit /\ [][TraceNext]_tvars
 
 IsStep == ev'.k # "reset"
+\* every identity the step mentions belongs to the universe (an in-memory entry whose hash matches no certificate the
+\* harness ever handed out, a listed blob nobody added: "?xxxx").  The operators of ShimAgent are not total outside the
+\* universe, so such a step is rejected (D1, D4) before they are applied to it.
+CleanS(s) == S(s.u) \subseteq Ids /\ S(s.m) \subseteq Certs
+Clean == /\ CleanS(TraceLog[l].pre) /\ CleanS(TraceLog[l].post)
+         /\ S(TraceLog[l].e.res.l1) \subseteq Ids /\ S(TraceLog[l].e.res.l2) \subseteq Ids
+         /\ (TraceLog[l].e.k = "op" /\ TraceLog[l].e.rq.op \in {"sign", "add", "remove", "addhard"}) => TraceLog[l].e.rq.arg \in Ids
 \* reporting action constraints: one TLC run lists every rejected line of every trace
 Rep(name, F) == F \/ PrintT(<<"REJ", name, l>>)
-RepD1 == Rep("D1", IsStep => D1_Seq)
-RepD2 == Rep("D2", IsStep => D2_Step)
-RepD3 == Rep("D3", IsStep => D3_Step)
-RepD4 == Rep("D4", IsStep => D4_Step)
-RepD5 == Rep("D5", IsStep => D5_Step)
+RepD1 == Rep("D1", IsStep => (Clean /\ D1_Seq))
+RepD2 == Rep("D2", (IsStep /\ Clean) => D2_Step)
+RepD3 == Rep("D3", (IsStep /\ Clean) => D3_Step)
+RepD4 == Rep("D4", IsStep => (Clean /\ D4_Step))
+RepD5 == Rep("D5", (IsStep /\ Clean) => D5_Step)
 TraceAccepted == TLCGet("stats").diameter = Len(TraceLog)
 =============================================================================
